@@ -431,7 +431,12 @@ class Interp:
         if k == 'unop':
             a = self.operand(st, fr, r['a'])
             if r['op'] == 'Not': return mk_not(a)
-            if r['op'] == 'PtrMetadata': return ('len', self.deref(st, a))
+            if r['op'] == 'PtrMetadata':
+                # length of a slice (slice patterns `[] =>`, `[x] =>`): a vector / array whose elements are all known has a known length
+                v = self.deref(st, a)
+                w = v[2] if (v and v[0] == 'named') else v
+                if w and w[0] in ('vec', 'arr'): return ('c', len(w[1]))
+                return ('len', v)
             return ('un', r['op'], a)
         if k == 'discr':
             v = self.read_place(st, fr, r['pl'])
